@@ -52,6 +52,10 @@ CHECKS = {
          "PARTIAL: the hand-shake logic is proved for all thread counts and interleavings; that signals really end commands, the 2 s kill grace and wall-clock bounds are observed by the harness only (0..4 tasks in flight x 0..3 waiting, Cancel before/during/between/after/twice/from a stage condition error).",
          "Trusted: Coq kernel; LTS transcription of Run's in-flight accounting and Cancel (mutex+cond as atomic steps); environment rule 'a command in progress when the context is cancelled ends'; sync/context primitives; Go engine taskrun (child process), python driver. No axioms.",
          "DESIGN.md section 6 C12", "taskrun-child"),
+ "C13": ("Coq proof (partial): decision logic of timeouts on the TaskRun model (a job ends as a non-exit error iff longer than the timeout; an overrun fails the task also with allow_failure and nothing later starts; overrunning after hooks are cut short; within-timeout tasks behave as untimed ones; per-job timer); real timeouts against real overrunning commands measured by the harness and judged in Coq",
+         "PARTIAL: C13_overrun_fails / C13_after_cut_short / C13_within_unaffected / C13_full_timeout_each / C13_expires_iff_longer hold for all tasks, timeouts and durations. That expiry terminates the process shortly afterwards is observed only: timeouts 100 ms..1 s x {sleep, busy loop, SIGINT-ignoring child} x every position of 1..3 commands x hooks/condition x allow_failure against timeout + 2 s grace + slack.",
+         "Trusted: Coq kernel; TaskRun transcription; 'a cancelled/expired context makes the command end with a non-exit-status error' (mvdan/sh); real-time measurement with one retry in isolation; Go engine taskrun (child), python driver. No axioms.",
+         "DESIGN.md section 6 C13", "taskrun-child"),
  "C14": ("Coq proof: counting and ordering invariants over an LTS of n task runs over k contexts with sync.Once start-up, for all interleavings (up once and first, before/after once each per run, down once per used context after everything, nothing after Finish); observed traces of the real TaskRunner (simultaneous, sequential, through the scheduler) and of the binary judged in Coq",
          "C14_no_hook_twice / C14_up_exactly_once / C14_order / C14_up_fails / C14_before_and_after_once_each / C14_down_once_for_used_contexts / C14_second_finish_runs_nothing for all run/context assignments and schedules. Tied to the code by 1..8 runs over 1..3 contexts, all task shapes, failing up/before, through taskrun engine and CLI.",
          "Trusted: Coq kernel; LTS transcription of Run/contextForTask/Finish and ExecutionContext hooks; sync.Once as 'first arriver runs, others wait'; Go engine taskrun, python driver + binary. No axioms.",
